@@ -264,6 +264,27 @@ def rule_r21_compaction(ctx, prog, rule="R21", body=None):
     return C, sa
 
 
+def selection_helper(prog, sel):
+    """When get_from_sorted_mut is not itself recursive but hands its work to ONE private self-recursive function taking a view
+    of the array and one position (`quickselect_with_rng(self.view_mut(), i, &mut rng)`), that function is the selection routine
+    the proofs are about: → (helper body, index parameter) or None"""
+    if any(prog.local_callee_body(t) is not None and prog.local_callee_body(t).key == sel.key for _bb, t in sel.calls()):
+        return None
+    cands = []
+    for _bb, t in sel.calls():
+        cb = prog.local_callee_body(t)
+        if cb is None or cb.is_closure or cb.key in prog.exported or cb.key == sel.key:
+            continue
+        if not any(prog.local_callee_body(t2) is not None and prog.local_callee_body(t2).key == cb.key for _b2, t2 in cb.calls()):
+            continue
+        if "array" not in cb.local_flags(1):
+            continue
+        ip = [l for l in range(1, cb.arg_count + 1) if "uint:usize" in cb.local_flags(l) and "ref" not in cb.local_flags(l)]
+        if len(ip) == 1 and cb.key not in [c[0].key for c in cands]:
+            cands.append((cb, ip[0]))
+    return cands[0] if len(cands) == 1 else None
+
+
 def rule_r24_selection(ctx, prog, rule="R24"):
     """single selection returns the element of rank i with the documented ordering of the rest (C02, single form)"""
     from .selection import SelectionProof
@@ -275,13 +296,34 @@ def rule_r24_selection(ctx, prog, rule="R24"):
         return
     from .facts import inline_calls
     from .rules_zones import helper_filter
-    b = inline_calls(prog, b, helper_filter(prog))
+    hp0 = selection_helper(prog, b)
+    hf_ = helper_filter(prog)
+    b = inline_calls(prog, b, (lambda cb: hf_(cb) and cb.key != hp0[0].key) if hp0 is not None else hf_)
     from .facts import eliminate_static_refs
     b = eliminate_static_refs(prog, b)
     from .facts import thread_constant_flags
     b = thread_constant_flags(prog, b)
     from .facts import lower_checked_arith
     b = lower_checked_arith(prog, b)
+    hp = hp0
+    if hp is not None:
+        # the recursion lives in a private helper: the wrapper is judged with the helper's (separately proved) contract as the
+        # callee's contract, then the helper takes the routine's place below
+        wrapper = b
+        spw = SelectionProof(prog, wrapper, part.key, {hp[0].key})
+        try:
+            resw = spw.prove(ipar[0])
+            badw = [r for r in resw if not (r[1] and r[2] and r[3])]
+            ctx.ob(rule, "get_from_sorted_mut/wrapper", not badw and bool(resw), wrapper.where(),
+                   "every return path of the wrapper hands back the element at position i with the documented order of the rest, given the "
+                   "recursive helper's contract on the whole view (%d paths)" % len(resw) if (not badw and resw) else
+                   "not established on the wrapper's return path through blocks %s%s" % ((badw[0][0], (": " + badw[0][4]) if badw[0][4] else "") if badw else ("-", "")),
+                   what="selection postcondition")
+        except Exception as ex:
+            ctx.ob(rule, "get_from_sorted_mut/wrapper", False, wrapper.where(), "anchor not recognised: %r" % (ex,), what="anchor not recognised")
+        b = hp[0]
+        ipar = [hp[1]]
+        b = lower_checked_arith(prog, thread_constant_flags(prog, eliminate_static_refs(prog, inline_calls(prog, b, helper_filter(prog)))))
     sp = SelectionProof(prog, b, part.key, {b.key})
     try:
         res = sp.prove(ipar[0])
@@ -334,6 +376,16 @@ def bulk_result_zip(w):
             args = [ds(a) for a in w.call_arg_exprs(bb)]
             if not args or args[0] != f or not t["arg_tys"] or not t["arg_tys"][0].startswith("&mut "):
                 continue
+            if callee_name(t) == "extend" and len(args) == 2:
+                # `map.extend(indexes.zip(values))`: the pairs of that zip, in iteration order (what collect() does)
+                z = args[1]
+                while isinstance(z, tuple) and z[0] == "call" and z[1] == "into_iter" and z[3]:
+                    z = ds(z[3][0])
+                if isinstance(z, tuple) and z[0] == "call" and z[1] == "zip":
+                    zips.append(z)
+                    n_ins += 1
+                    continue
+                return None
             if callee_name(t) != "insert" or len(args) != 3:
                 return None
 
@@ -444,7 +496,7 @@ def rule_r25_bulk_selection(ctx, prog, rule="R25"):
         for dd in w.reaching_defs(0, w.exits()[0], "term"):
             f = ds(w.def_expr(0, dd))
             if isinstance(f, tuple) and f[0] == "call" and f[1] in ("new", "default", "with_capacity") and z is not None:
-                filled = any(callee_name(t2) == "insert" and [ds(a2) for a2 in w.call_arg_exprs(b2)][:1] == [f] for b2, t2 in w.calls())
+                filled = any(callee_name(t2) in ("insert", "extend") and [ds(a2) for a2 in w.call_arg_exprs(b2)][:1] == [f] for b2, t2 in w.calls())
                 if filled:
                     continue
 
@@ -482,7 +534,18 @@ def rule_r18s_selection_converse(ctx, prog, rule="R18s"):
     from .facts import inline_calls
     from .rules_zones import helper_filter
     jobs = []
-    sel = inline_calls(prog, sel, helper_filter(prog))
+    hp = selection_helper(prog, sel) if len(ipar) == 1 else None
+    hf_ = helper_filter(prog)
+    sel = inline_calls(prog, sel, (lambda cb: hf_(cb) and cb.key != hp[0].key) if hp is not None else hf_)
+    if hp is not None:
+        spw = SelectionProof(prog, sel, part.key, {hp[0].key})
+        try:
+            spw.prove(ipar[0], assume_in_range=True)
+            jobs.append(("get_from_sorted_mut(wrapper)", sel, spw.panic_obs, "i < len"))
+        except Exception as ex:
+            ctx.ob(rule, "get_from_sorted_mut/wrapper-paths", False, sel.where(), "anchor not recognised: %r" % (ex,), what="anchor not recognised")
+        sel = inline_calls(prog, hp[0], helper_filter(prog))
+        ipar = [hp[1]]
     if len(ipar) == 1:
         sp = SelectionProof(prog, sel, part.key, {sel.key})
         try:
